@@ -97,6 +97,7 @@ def c04_jobs(tier):
         return [seq_job('vec', 'vec-n5-siz1-3', 5, 1, 3),
                 seq_job('vec', 'vec-n4-siz8-12', 4, 8, 12),
                 seq_job('vec', 'vec-n4-siz0', 4, 0),
+                seq_job('vec', 'vec-n3-siz1-12', 3, 1, 12),  # 8 one-byte slots become 0 twelve-byte slots: capacity 0 with live storage
                 seq_job('vec', 'vec-n9-siz3-2keys', 9, 3, keys=2, memcap=16),
                 seq_job('vec', 'vec-asan-n3-siz1-3', 3, 1, 3, san='asan'),
                 seq_job('vec', 'vec-asan-n3-siz12', 3, 12, san='asan'),
@@ -219,6 +220,7 @@ def c07_jobs(tier):
     q = tier == 'quick'
     return [seq_job('vec', 'oom-vec-siz1-3', 4 if q else 6, 1, 3, faults=1, deadline=D),
             seq_job('vec', 'oom-vec-siz12', 3 if q else 5, 12, faults=1, deadline=D),
+            seq_job('vec', 'oom-vec-siz1-12', 3 if q else 4, 1, 12, faults=1, deadline=D),
             seq_job('vec', 'oom-vec-growth-8-16', 9 if q else 10, 2, keys=1 if q else 2, memcap=16, faults=1, deadline=D),
             seq_job('buf', 'oom-buf-siz1-3', 3 if q else 5, 1, 3, mem0=3 if q else 5, memcap=5 if q else 7, faults=1, deadline=D),
             lists_job('que', 'oom-que-siz4-9', 4 if q else 6, 4, 9, 2, faults=1, deadline=D),
@@ -498,6 +500,8 @@ def c08_jobs(tier):
     libs = ['-lquadmath', '-lm']
     jobs = grid_jobs('fact-f64', 'harness/fact.cpp', src, tier, 16, libs=libs)
     jobs += grid_jobs('fact-f32', 'harness/fact.cpp', src, 'quick', 16, defs=['-DA_SIZE_REAL=4'], libs=libs)
+    # long double reals with long double tolerances: a helper that quietly works in double precision shows only here
+    jobs += grid_jobs('fact-ld', 'harness/fact.cpp', src, 'quick', 16, defs=['-DA_SIZE_REAL=16'], libs=libs)
     return jobs
 
 
